@@ -21,10 +21,12 @@ Fixpoint split_lines (l : list ascii) : list (list ascii) * list ascii :=
          end
   end.
 
-Definition drop_cr (l : list ascii) : list ascii :=
-  match rev l with
-  | ch :: r => if Ascii.eqb ch cr then rev r else l
-  | [] => l
+(* dropCR: one trailing carriage return is removed *)
+Fixpoint drop_cr (l : list ascii) : list ascii :=
+  match l with
+  | [] => []
+  | [ch] => if Ascii.eqb ch cr then [] else [ch]
+  | ch :: r => ch :: drop_cr r
   end.
 
 Inductive rend := REof | RErr.         (* how the reader ends after delivering its data *)
